@@ -18,6 +18,7 @@ import SvgVerif.Model.PathPrint
 import SvgVerif.Model.Reverse
 import SvgVerif.Model.ArcBezier
 import SvgVerif.Model.ArcLen
+import SvgVerif.Model.DocShape
 open Svg Svg.Wire
 
 def fmtMat (m : Mat Float) : String :=
@@ -284,8 +285,60 @@ def boxOf : List Float → Box Float
   | [x, y, w, h] => ⟨x, y, w, h⟩
   | _ => ⟨0, 0, 0, 0⟩
 
+-- ---------------------------------------------------------------- documents (C03, C10, C14, C20)
+def hs (s : String) : String := if s = "-" then "" else stringOfHex s
+
+/-- tokens `N tag nattrs (k v)* text nkids kid*` -/
+partial def xmlOf : List String → Option (Doc.Xml × List String)
+  | "N" :: tag :: na :: rest =>
+    let rec attrs (n : Nat) (l : List String) (acc : List (String × String)) : Option (List (String × String) × List String) :=
+      match n, l with
+      | 0, l => some (acc.reverse, l)
+      | n + 1, k :: v :: l => attrs n l ((hs k, hs v) :: acc)
+      | _, _ => none
+    match attrs na.toNat! rest [] with
+    | some (as, text :: nk :: rest2) =>
+      let rec kids (n : Nat) (l : List String) (acc : List Doc.Xml) : Option (List Doc.Xml × List String) :=
+        match n with
+        | 0 => some (acc.reverse, l)
+        | n + 1 => match xmlOf l with
+          | some (k, l') => kids n l' (k :: acc)
+          | none => none
+      (match kids nk.toNat! rest2 [] with
+       | some (ks, rest3) => some (Doc.Xml.node (hs tag) as (hs text) ks, rest3)
+       | none => none)
+    | _ => none
+  | _ => none
+
+def dimOf (s : String) : Doc.Dim Float :=
+  match s.splitOn ":" with
+  | ["n", h] => some (.num (floatOfHex h))
+  | ["s", h] => some (.lenStr (Len.ofText numF (stringOfHex h).toList))
+  | _ => none
+
+def fmtOptNat : Option (Option Nat) → String
+  | none => "unset" | some none => "none" | some (some v) => toString v
+
+def fmtShape (s : Doc.ShapeOut Float) : String :=
+  " ".intercalate [hexOfString s.tag, (match s.id with | some i => "i" ++ hexOfString i | none => "-"),
+    fmtOptNat s.fill, fmtOptNat s.stroke, hexOfFloat s.sw, bstr s.nonScaling, fmtMat s.m, fmtMat s.vt,
+    toString s.nums.length, " ".intercalate (s.nums.map hexOfFloat),
+    " ".intercalate (s.opts.map fun o => match o with | some x => hexOfFloat x | none => "-"),
+    "d" ++ hexOfString s.d]
+
+def docRender (ppi color tf w h tree : String) : String :=
+  match xmlOf ((tree.splitOn " ").filter (· ≠ "")) with
+  | some (x, _) =>
+    let cfg : Doc.Cfg Float := Doc.mkCfg (floatOfHex ppi) numF
+    let f := Doc.initFrame (hs color) (if tf = "-" then none else some (stringOfHex tf)) (dimOf w) (dimOf h)
+    (match Doc.renderDoc cfg (6.283185307179586 : Float) f [x] with
+     | .ok l => "OK\t" ++ "\t".intercalate (l.map fmtShape)
+     | .error e => fmtErr e)
+  | none => "bad-op"
+
 def step (line : String) : String :=
   match line.splitOn "\t" with
+  | ["doc.render", ppi, color, tf, w, h, tree] => docRender ppi color tf w h tree
   | "path.parse" :: parts => fmtParse (parseSeq parts)
   | ["path.d", r, sm, h] =>
       (match parsePath numOvf [] (stringOfHex h).toList with
